@@ -66,6 +66,8 @@ pub struct Shared {
     pub delivered: usize,
     /// max over time of taken - delivered
     pub max_inflight: i64,
+    /// (virtual ms, from, to) of every segment the peer released
+    pub send_log: Vec<(u64, usize, usize)>,
 }
 
 impl Shared {
@@ -115,6 +117,7 @@ pub fn pair() -> (SimIo, Peer) {
         keep_taken_log: false,
         delivered: 0,
         max_inflight: 0,
+        send_log: Vec::new(),
     }));
     (SimIo(sh.clone()), Peer(sh))
 }
@@ -392,6 +395,8 @@ pub enum PeerOp {
     WaitOut(usize, u32),
     /// wait until the server closed its side (shutdown or drop), at most max_ms
     WaitClose(u32),
+    /// wait until the output parses as >= n complete final responses (closed-loop), at most max_ms
+    WaitResps(usize, u32),
 }
 
 /// Outbound (server → peer) socket behaviour script step.
@@ -407,13 +412,42 @@ pub enum WOp {
     Break,
 }
 
-pub async fn run_peer(peer: Peer, input: Bytes, ops: Vec<PeerOp>) {
+pub async fn run_peer(peer: Peer, input: Bytes, ops: Vec<PeerOp>, is_head: Vec<bool>) {
     for op in ops {
         match op {
             PeerOp::Send(a, b) => {
                 let a = a.min(input.len());
                 let b = b.clamp(a, input.len());
+                {
+                    let mut s = peer.0.borrow_mut();
+                    let now = s.now_ms();
+                    s.send_log.push((now, a, b));
+                }
                 peer.send(input.slice(a..b));
+            }
+            PeerOp::WaitResps(n, max) => {
+                let notify = peer.0.borrow().out_notify.clone();
+                let deadline = Instant::now() + Duration::from_millis(max as u64);
+                loop {
+                    let done = {
+                        let s = peer.0.borrow();
+                        let mut ih = is_head.clone();
+                        while ih.len() < n + 4 {
+                            ih.push(false);
+                        }
+                        let p = crate::httpwire::parse_responses(&s.out, &ih, false);
+                        p.responses.iter().filter(|r| r.complete).count() >= n
+                            || p.error.is_some()
+                    };
+                    if done || peer.is_closed() {
+                        break;
+                    }
+                    let notified = notify.notified();
+                    tokio::pin!(notified);
+                    if tokio::time::timeout_at(deadline, notified).await.is_err() {
+                        break;
+                    }
+                }
             }
             PeerOp::Sleep(ms) => tokio::time::sleep(Duration::from_millis(ms as u64)).await,
             PeerOp::Yield => tokio::task::yield_now().await,
